@@ -24,6 +24,9 @@ fn main() {
             "C06" => c06::replay(&v["case"]),
             "C07" => c07::replay(&v["case"]),
             "C08" => c08::replay(&v["case"]),
+            "C09" => c09::replay(&v["case"]),
+            "C10" => c10::replay(&v["case"]),
+            "C11" => c11::replay(&v["case"]),
             "C14" => c14::replay(&v["case"]),
             "C15" => c15::replay(&v["case"]),
             "C19" => c19::replay(&v["case"]),
@@ -55,6 +58,9 @@ fn main() {
         "C06" => c06::run(tier),
         "C07" => c07::run(tier),
         "C08" => c08::run(tier),
+        "C09" => c09::run(tier),
+        "C10" => c10::run(tier),
+        "C11" => c11::run(tier),
         "C14" => c14::run(tier),
         "C15" => c15::run(tier),
         "C19" => c19::run(tier),
